@@ -35,12 +35,16 @@ func gen(g *vh.Gen) {
 	}
 	sd.GenSched(g)
 	sd.GenSched2(g)
+	sd.GenChurn(g)
 	sd.GenConc(g)
 }
 
 func exec(kind string, in []string) []string {
 	if kind == "sched" {
 		return sd.ExecSched(in)
+	}
+	if kind == "churn" {
+		return sd.ExecChurn(in)
 	}
 	if kind == "sched2" {
 		return sd.ExecSched2(in)
